@@ -195,6 +195,20 @@ CHECKS["C19"] = dict(
          "and encodings exactly with the extracted model, for det and U layers over 1-3 grammars sharing abstractions and tensors up to magnitude 500."),
    note=TB + "Real-number theorems depend on ClassicalDedekindReals.sig_forall_dec, sig_not_dec, FunctionalExtensionality.functional_extensionality_dep and Classical_Prop.classic (standard library reals); the discrete theorems are closed.  Domain of the correspondence: CFG/UCFG.depth_constraint grammars over random abstract DSLs, the four abstractions of abstractions.py plus identity, v in {0.05, 0.2, 0.9}, |x| <= 500 (start entries <= 800); U grammars with one alternative per rule; weights below 1e-280 are only required to be >= 0.  Autograd is not a subject.",
    design="5/C19")
+CHECKS["C16"] = dict(
+   technique="Coq proof of an object model of eq/hash/pickle (abstract repaired model plus literal model parametrised by repair set) + extracted-model/implementation correspondence, in-process and across processes with different PYTHONHASHSEED",
+   text=("Theorems (Props/C16.v, closed under the global context), over all types and programs the constructors can build (any nesting; constant "
+         "values None/ints/integer floats/bools/strings): == is reflexive, symmetric and transitive (C16_eq_equivalence); equal objects have equal "
+         "hashes for every per-process hash function (C16_eq_hash, C16_key_sound, C16_cached_hash) and are interchangeable as dict/set keys "
+         "(C16_interchangeable); objects rebuilt from a pickle in a process with other hash functions are the originals with every cached hash and "
+         "computed type recomputed, also inside lists, tuples, dataclasses and dicts, and rebuilt dicts answer lookups as == does "
+         "(C16_pickle_roundtrip, C16_pickle_roundtrip_containers, C16_pickle_dict_lookup); a class pickled without its reducer would keep a stale "
+         "hash (C16_unregistered_stale).  Eight _refuted witnesses exhibit the eq/hash mismatches of the definitions before the six fix: commits.  "
+         "Each run compares the model with synth.syntax on thousands of near-collision pairs and triples (==, hash, dict/set behaviour, in, !=) and "
+         "on objects, tasks/datasets, keyed dicts and grammars (CFG, ProbDetGrammar, UCFG, ProbUGrammar) written under one hash seed through pickle, "
+         "save_object and Dataset.save and read under another."),
+   note=TB + "The repaired model abstracts CPython's set algorithms as mutual inclusion modulo ==; the literal transcription is run beside it on every case and must agree (checked, not proved).  Hash disagreement between unequal objects is judged under 'distinct key trees give distinct hashes'.  Grammar behaviour after loading is compared with a twin built in the reader, not predicted by the model.  NaN, container and user-class constant values are outside the model; grammar __hash__ (str(rules), order dependent) is outside the property.",
+   design="5/C16")
 NOT_YET = {}
 def main():
     props = [json.loads(l) for l in open(os.path.join(V, "properties.jsonl"))]
